@@ -29,6 +29,7 @@ RULE = ('Hypothesis RuleBasedStateMachine: the state is a set of script globals 
         'sequence); classes report per-function ok/failed counts.')
 RULE += " Also: script match functions for arrayIndexOf / arrayLastIndexOf returning {}, [], '', 0, null, the element itself; indices a hair off an integer (n +- 1e-10); URLs with characters that are not in NFC form, %-sequences. Round 5: a match function that changes the array being searched; library functions as match functions over arrays of arrays; keys that are present and hold null."
 RULE += ' Round 7: failing calls must return the documented failure value exactly (null is no longer accepted where -1 / 0 / false is documented); odd wrong-typed arguments - objects and arrays of 120 members, a 300-character string, +-infinity / NaN, containers that contain themselves, a datetime at the end of the year range - in the machine and exhaustively for every typed parameter of every function (debug on and off, arguments unchanged, failure logged).'
+RULE += " Round 8: non-ASCII white space at the ends of strings; an array nested 3000 levels deep as a wrong-typed argument (under the host's default recursion limit)."
 ASSUMPTIONS = ['arrayDelete\'s return value, searches for the empty string, stringReplace with an empty pattern and comparison callbacks are not asserted',
                'strings avoid code points that str.splitlines treats as line ends (script text is line oriented)']
 
